@@ -128,12 +128,17 @@ CLAIMED = {
 NOT_YET = "check not built yet in this round (see DESIGN.md section 2 for its design)"
 
 
+SHADOW = {"C01", "C02", "C05", "C06", "C07", "C08", "C09", "C10", "C11", "C12", "C13", "C15"}
+
+
 def main():
     checks = []
     for pid in ALL:
         if pid not in CLAIMED:
             continue
         tech, text, note, ref = CLAIMED[pid]
+        if pid in SHADOW:
+            tech += "; every worker then replays a sample of its own queries in shuffled order, twice in a row and without an error slot (metamorphic: a pure function answers the same)"
         checks.append(dict(
             property_id=pid,
             quick_cmd="bin/check %s --tier quick" % pid,
